@@ -122,6 +122,23 @@ func (fr *Frame) callDispatch(in ssa.Instruction, cc *ssa.CallCommon, callee *ss
 	} else if cc.IsInvoke() {
 		c = vc.P.CS.ByKey[ifaceKey(cc)]
 	}
+	if fr.c != nil && callee != nil && callee.Blocks != nil && fr.depth < 4 {
+		for _, pat := range fr.c.InlineCalls {
+			if !calleeMatches(name, pat) {
+				continue
+			}
+			// the callee's body is executed here; of its contract only the loop annotations are used
+			// (its own safety and pre/postconditions are obligations of the callee, proved there)
+			var ic *Contract
+			if c != nil {
+				cp := *c
+				cp.Checks, cp.Requires, cp.Ensures, cp.TrustedEnsures = map[string]bool{}, nil, nil, nil
+				cp.AtCalls, cp.GhostSets, cp.GhostInits, cp.AllocLimit, cp.InlineCalls = nil, nil, nil, nil, fr.c.InlineCalls
+				ic = &cp
+			}
+			return fr.inline(in, callee, ic, args, closure)
+		}
+	}
 	if c != nil {
 		if c.Inline && callee != nil && callee.Blocks != nil && fr.depth < 4 {
 			return fr.inline(in, callee, c, args, closure)
